@@ -52,6 +52,55 @@ def attr_writers(prog: Program, attr: str) -> List[Tuple[FuncInfo, ast.AST]]:
     return out
 
 
+def subsumed_helpers(prog: Program) -> Set[int]:
+    """Private helpers whose every call site was inlined into the caller's analysis view: their statements are examined as
+    part of the callers, the helper is not a construct of its own."""
+    cached = getattr(prog, '_subsumed_helpers', None)
+    if cached is not None:
+        return cached
+    for f in list(prog.all_funcs()):
+        prog.view(f)
+    inl = prog.inliner.inlined if prog.inliner is not None else {}
+    out: Set[int] = set()
+    by_id = {id(f.node): f for f in prog.all_funcs()}
+    for gid, callers in inl.items():
+        g = by_id.get(gid)
+        if g is None:
+            continue
+        ok = True
+        for f in prog.all_funcs():
+            for c in calls_in_func(f):
+                nm = c.func.attr if isinstance(c.func, ast.Attribute) else (c.func.id if isinstance(c.func, ast.Name) else None)
+                if nm == g.name and f.qualname not in callers and f is not g:
+                    ok = False
+        # referenced as a value (callback) somewhere: not subsumed
+        if ok and any(isinstance(n, ast.Attribute) and n.attr == g.name and isinstance(n.ctx, ast.Load) and not any(n is c.func for c in calls_in_func(f))
+                      for f in prog.all_funcs() for n in body_walk(f)):
+            ok = False
+        if ok:
+            out.add(gid)
+    prog._subsumed_helpers = out  # type: ignore[attr-defined]
+    return out
+
+
+def effective_writers(prog: Program, attr: str) -> List[Tuple[FuncInfo, ast.AST]]:
+    """attr_writers over the helper-inlined views: a store made inside a private helper that is inlined at all its call
+    sites is reported in (the view of) each caller, not in the helper."""
+    sub = subsumed_helpers(prog)
+    out = []
+    for f in prog.all_funcs():
+        if id(f.node) in sub:
+            continue
+        v = prog.view(f)
+        for n in body_walk(v):
+            if isinstance(n, ast.Attribute) and n.attr == attr and isinstance(n.ctx, (ast.Store, ast.Del)):
+                out.append((v, n))
+            elif (isinstance(n, ast.Call) and unparse(n.func) == 'setattr' and len(n.args) >= 2
+                  and isinstance(n.args[1], ast.Constant) and n.args[1].value == attr):
+                out.append((v, n))
+    return out
+
+
 def name_refs_as_value(prog: Program, func: FuncInfo) -> List[Tuple[FuncInfo, ast.AST]]:
     """Places where ``func`` is referenced without being called (passed as a callback, wrapped in partial...)."""
     out = []
